@@ -79,6 +79,8 @@ func LoadKnown(path string) ([]KnownFinding, error) {
 type Exception struct {
 	Key    string
 	Reason string
+	// Prefix: the exception covers every key that starts with Key
+	Prefix bool
 }
 
 type Floor struct {
@@ -129,6 +131,19 @@ func Decide(prop string, set *Set, exceptions []Exception, known []KnownFinding,
 		if r, ok := exc[o.Key]; ok {
 			usedExc[o.Key] = true
 			o.Exception = r
+			continue
+		}
+		pref := false
+		for _, e := range exceptions {
+			if e.Prefix && strings.HasPrefix(o.Key, e.Key) {
+				seenKeys[e.Key] = true
+				if !o.OK {
+					o.Exception = e.Reason
+				}
+				pref = true
+			}
+		}
+		if pref && o.Exception != "" {
 			continue
 		}
 		if o.OK {
